@@ -19,6 +19,7 @@
 #include <etl/variant.hpp>
 
 #include <functional>
+#include <utility>
 #include <sys/wait.h>
 #include <unistd.h>
 
@@ -180,6 +181,9 @@ bool run_opt(std::string const& site, long n, long /*a*/, long /*b*/, json& pre)
     vhc::snapshot = [n] { return n == 1 ? json::array({1, 7}) : json::array({0}); };
     (void)proj;
     if (site == "opt.deref") { sink = (*o).x; }
+    else if (site == "opt.deref_c") { sink = (*std::as_const(o)).x; }
+    else if (site == "opt.deref_rv") { sink = (*std::move(o)).x; }
+    else if (site == "opt.deref_crv") { sink = (*std::move(std::as_const(o))).x; }
     else if (site == "opt.arrow") { sink = o->x; }
     else { return false; }
     return true;
@@ -195,6 +199,12 @@ bool run_exp(std::string const& site, long n, long /*a*/, long /*b*/, json& pre)
     pre     = json::array({(int)e.has_value()});
     vhc::snapshot = [&e] { return json::array({(int)e.has_value()}); };
     if (site == "exp.deref") { sink = (*e).x; }
+    else if (site == "exp.deref_c") { sink = (*std::as_const(e)).x; }
+    else if (site == "exp.deref_rv") { sink = (*std::move(e)).x; }
+    else if (site == "exp.deref_crv") { sink = (*std::move(std::as_const(e))).x; }
+    else if (site == "exp.error_c") { sink = std::as_const(e).error(); }
+    else if (site == "exp.error_rv") { sink = std::move(e).error(); }
+    else if (site == "exp.error_crv") { sink = std::move(std::as_const(e)).error(); }
     else if (site == "exp.arrow") { sink = e->x; }
     else if (site == "exp.error") { sink = e.error(); }
     else { return false; }
